@@ -545,6 +545,18 @@ def run_one(prog, g, exe, cfg, evaluate):
     """one run of a compiled program + evaluation.  {'n', 'fails', 'dis', 'crash', 'oneoff', 'stats'}"""
     r = {'n': 0, 'fails': [], 'dis': [], 'crash': None, 'oneoff': None, 'stats': {}}
     rc, out, err = run_cfg(exe, g, cfg)
+    for _ in range(4):
+        if not (rc == 127 or 'error while loading shared libraries' in err):
+            break
+        # libparsec.so is being relinked by a concurrent check (the repository changed): wait for that build, run again
+        import time
+        time.sleep(3)
+        with pv.locked('build-verif'):
+            pass
+        rc, out, err = run_cfg(exe, g, cfg)
+    if rc == 127 or 'error while loading shared libraries' in err:
+        r['infra'] = 'the program could not be loaded: ' + err[-300:]
+        return r
     if rc not in (0, 3) or not out.strip():
         msg = 'exit %s: %s' % (rc, err[-400:])
         again, tries = 0, 5
@@ -597,6 +609,8 @@ def sweep(ctx, res, prop, work, evaluate, workers=5, stop_after=6):
                 continue
             except Exception as e:
                 res.infra_errors.append('run %s %s raised %r' % (w[0].name, w[4], e)); continue
+            if r.get('infra'):
+                res.infra_errors.append(r['infra']); continue
             results.append((w, r))
             bad += bool(r['crash'] or r['fails'] or r['dis'])
     pv.log('[%s] %d runs in %.1fs' % (prop, len(results), time.time() - t0))
